@@ -3,6 +3,7 @@ package main
 import (
 	"fmt"
 	"go/types"
+	"sort"
 	"strings"
 
 	"golang.org/x/tools/go/ssa"
@@ -71,7 +72,7 @@ func (fr *Frame) sliceElemWrite(st *ssa.Store, p Val, v Val) {
 	}
 	cur.T = fc.B.Define("slw_"+base.Name(), cur.S, nt)
 	cur.VA = nil
-	fr.vals[base] = cur
+	fr.addRebind(base, cur)
 }
 
 // appendSlices: deterministic model of append for non-byte slices: the result is a function of both
@@ -105,8 +106,10 @@ func init() {
 	}
 }
 
-// pureResult: results of a contracted pure function as uninterpreted functions of its arguments.
-func (fr *Frame) pureResult(resT types.Type, name string, args []Val) Val {
+// pureResult: results of a contracted pure function as uninterpreted functions of its arguments AND of the
+// state it can read (the worlds term and every heap term known at the call): two calls yield equal results
+// only when arguments and state terms are identical.
+func (fr *Frame) pureResult(resT types.Type, name string, args []Val, st *State) Val {
 	fc := fr.fc
 	var sorts, ts []string
 	for _, a := range args {
@@ -116,8 +119,63 @@ func (fr *Frame) pureResult(resT types.Type, name string, args []Val) Val {
 		sorts = append(sorts, a.S)
 		ts = append(ts, a.T)
 	}
+	tag := ""
+	needState := false
+	for _, a := range args {
+		if a.S == "Ctx" || a.S == "View" {
+			needState = true
+		}
+		if a.Typ != nil {
+			switch a.Typ.Underlying().(type) {
+			case *types.Pointer, *types.Map:
+				needState = true
+			}
+		}
+	}
+	if needState {
+		sorts = append(sorts, "(Array Int WorldS)")
+		ts = append(ts, st.worlds)
+		// heaps the callee can read: objects behind pointer/map arguments, and (two levels) behind their fields
+		seen := map[string]bool{}
+		var visit func(t types.Type, depth int)
+		visit = func(t types.Type, depth int) {
+			if t == nil || depth > 2 {
+				return
+			}
+			switch u := types.Unalias(t).Underlying().(type) {
+			case *types.Pointer:
+				seen[fc.B.SortOf(u.Elem())] = true
+				visit(u.Elem(), depth)
+			case *types.Map:
+				seen[fc.mapSort(u)] = true
+			case *types.Struct:
+				for i := 0; i < u.NumFields(); i++ {
+					switch u.Field(i).Type().Underlying().(type) {
+					case *types.Pointer, *types.Map:
+						visit(u.Field(i).Type(), depth+1)
+					}
+				}
+			}
+		}
+		for _, a := range args {
+			visit(a.Typ, 0)
+		}
+		var hs []string
+		for h := range seen {
+			hs = append(hs, h)
+		}
+		sort.Strings(hs)
+		for _, h := range hs {
+			sorts = append(sorts, "(Array Int "+h+")")
+			ts = append(ts, fc.heapOf(st, h))
+			tag += "_" + sanitize(h)
+		}
+		if len(tag) > 60 {
+			tag = fmt.Sprintf("_h%x", hashStr(tag))
+		}
+	}
 	mk := func(t types.Type, i int) Val {
-		fn := fmt.Sprintf("pure_%s_%d", sanitize(shortFn(name)), i)
+		fn := fmt.Sprintf("pure_%s_%d%s", sanitize(shortFn(name)), i, tag)
 		v := fc.mkVal(t, "")
 		fc.B.DeclFun(fn, sorts, v.S)
 		v.T = app(fn, ts...)
@@ -194,5 +252,38 @@ func init() {
 	}
 	for _, n := range []string{"slices.Contains[[]string string]", "slices.Contains[[]string, string]"} {
 		reg(n, contains)
+	}
+}
+
+
+func init() {
+	// slices.Sort on an owned []string: the SSA slice value is re-bound to a sorted permutation
+	sortStrings := func(p *preCall) Val {
+		fc := p.fc()
+		if p.cc == nil || p.spec {
+			fc.unsupported("slices.Sort in a specification context")
+			return Val{}
+		}
+		base := p.cc.Args[0]
+		if !ownedSlice(base, 0) {
+			fc.unsupported("#own: slices.Sort on a slice not owned by %s", p.fr.fn.Name())
+			return Val{}
+		}
+		a := p.args[0]
+		srt := fc.B.Fresh("sorted", a.S)
+		fc.B.Assert(and(eq("(s_len "+srt+")", "(s_len "+a.T+")"), eq("(s_nil "+srt+")", "(s_nil "+a.T+")"),
+			fmt.Sprintf("(forall ((i Int) (j Int)) (! (=> (and (<= 0 i) (< i j) (< j (s_len %s))) (str.<= (select (s_arr %s) i) (select (s_arr %s) j))) :pattern ((select (s_arr %s) i) (select (s_arr %s) j))))", srt, srt, srt, srt, srt),
+			fmt.Sprintf("(forall ((i Int)) (! (=> (and (<= 0 i) (< i (s_len %s))) (exists ((j Int)) (and (<= 0 j) (< j (s_len %s)) (= (select (s_arr %s) i) (select (s_arr %s) j))))) :pattern ((select (s_arr %s) i))))", srt, a.T, srt, a.T, srt),
+			fmt.Sprintf("(forall ((j Int)) (! (=> (and (<= 0 j) (< j (s_len %s))) (exists ((i Int)) (and (<= 0 i) (< i (s_len %s)) (= (select (s_arr %s) i) (select (s_arr %s) j))))) :pattern ((select (s_arr %s) j))))", a.T, srt, srt, a.T, a.T),
+		))
+		nv := a
+		nv.T = srt
+		nv.VA = nil
+		p.fr.addRebind(base, nv)
+		fc.trusted["slices.Sort: result is a sorted (byte-wise) rearrangement with the same elements"] = true
+		return Val{}
+	}
+	for _, n := range []string{"slices.Sort[[]string, string]", "slices.Sort[[]string string]"} {
+		reg(n, sortStrings)
 	}
 }
